@@ -1451,7 +1451,8 @@ evbuffer_pullup(struct evbuffer *buf, ev_ssize_t size)
 		tmp->off = size;
 		size -= old_off;
 		chain = chain->next;
-	} else if (chain->buffer_len - chain->misalign >= (size_t)size) {
+	} else if (!(chain->flags & EVBUFFER_IMMUTABLE) &&
+	    chain->buffer_len - chain->misalign >= (size_t)size) {
 		/* already have enough space in the first chain */
 		size_t old_off = chain->off;
 		buffer = chain->buffer + chain->misalign + chain->off;
